@@ -6,8 +6,8 @@ import Refine.Model.Geom
 
   The C stores the tree in arrays indexed by insertion slot (`item[] pos[] radius[] left[] right[]
   children_ball[]`); slot 0 is the root and a slot's `item/pos/radius` never change after the insert.
-  The model keeps the same information as an inductive `Tree` whose nodes remember their slot
-  (`Entry.loc`); `Tree.rows` lists the array rows, so a dump of the C arrays can be compared
+  The model keeps the same information as an inductive `STree` whose nodes remember their slot
+  (`Entry.loc`); `STree.rows` lists the array rows, so a dump of the C arrays can be compared
   after every insert (driver `search`, op `dump`).  Operation order of every `REF_DBL` expression is
   copied from the C so that the `Float` instance is bit-identical.
 -/
@@ -65,11 +65,12 @@ def tri3Foot (p0 p1 p2 x : V3 α) : V3 α :=
   let q : V3 α := ⟨q.x -. n.x *. total, q.y -. n.y *. total, q.z -. n.z *. total⟩
   ⟨q.x +. p0.x, q.y +. p0.y, q.z +. p0.z⟩
 
-/-- the three un-normalised barycentric numerators of `ref_search_distance3` -/
-def tri3Bary (p0 p1 p2 x : V3 α) : V3 α :=
+/-- the three un-normalised barycentric numerators of `ref_search_distance3`, for a given in-plane foot `xp` -/
+def tri3BaryAt (p0 p1 p2 xp : V3 α) : V3 α :=
   let n := xyzNormal p0 p1 p2
-  let xp := tri3Foot p0 p1 p2 x
   ⟨dot (xyzNormal xp p1 p2) n, dot (xyzNormal p0 xp p2) n, dot (xyzNormal p0 p1 xp) n⟩
+
+def tri3Bary (p0 p1 p2 x : V3 α) : V3 α := tri3BaryAt p0 p1 p2 (tri3Foot p0 p1 p2 x)
 
 /-- the edge fall-back of `ref_search_distance3` -/
 def tri3Edges (p0 p1 p2 x : V3 α) : α :=
@@ -126,13 +127,13 @@ structure Entry (α : Type) where
   pos : V3 α
   rad : α
 
-inductive Tree (α : Type) where
-  | nil : Tree α
-  | node (e : Entry α) (ball : α) (l r : Tree α) : Tree α
+inductive STree (α : Type) where
+  | nil : STree α
+  | node (e : Entry α) (ball : α) (l r : STree α) : STree α
 
-namespace Tree
+namespace STree
 
-@[inline] def leaf (c : Entry α) : Tree α := .node c Scalar.zero .nil .nil
+@[inline] def leaf (c : Entry α) : STree α := .node c Scalar.zero .nil .nil
 
 /-- `children_ball[parent] = MAX(children_ball[parent], child_distance + radius[child])` -/
 @[inline] def ballUp (c e : Entry α) (ball : α) : α :=
@@ -141,7 +142,7 @@ namespace Tree
 /-- `ref_search_home(child, parent)`: update the parent's ball, take the first free child slot
     (left first), else descend to the nearer child (`<`: ties and NaN go right).
     `nil` is the empty tree: the first insert lands in slot 0 and `home(0,0)` returns at once. -/
-def home (c : Entry α) : Tree α → Tree α
+def home (c : Entry α) : STree α → STree α
   | .nil => leaf c
   | .node e ball .nil r => .node e (ballUp c e ball) (leaf c) r
   | .node e ball (.node le lb ll lr) .nil => .node e (ballUp c e ball) (.node le lb ll lr) (leaf c)
@@ -152,21 +153,21 @@ def home (c : Entry α) : Tree α → Tree α
       .node e (ballUp c e ball) (.node le lb ll lr) (home c (.node re rb rl rr))
 
 /-- pre-order list of the entries (the order `ref_search_gather` visits an unpruned tree) -/
-def pre : Tree α → List (Entry α)
+def pre : STree α → List (Entry α)
   | .nil => []
   | .node e _ l r => e :: (pre l ++ pre r)
 
-def rootLoc : Tree α → Int
+def rootLoc : STree α → Int
   | .nil => -1
   | .node e _ _ _ => Int.ofNat e.loc
 
 /-- the C array rows `(slot, item, left, right, children_ball, pos, radius)`, pre-order -/
-def rows : Tree α → List (Nat × Int × Int × Int × α × V3 α × α)
+def rows : STree α → List (Nat × Int × Int × Int × α × V3 α × α)
   | .nil => []
   | .node e ball l r => (e.loc, e.item, rootLoc l, rootLoc r, ball, e.pos, e.rad) :: (rows l ++ rows r)
 
 /-- `ref_search_gather`: items whose sphere touches the query sphere, appended to `acc` in C push order -/
-def touching (x : V3 α) (rho : α) : Tree α → List Int → List Int
+def touching (x : V3 α) (rho : α) : STree α → List Int → List Int
   | .nil, acc => acc
   | .node e ball l r, acc =>
     let d := dist0 e.pos x
@@ -175,7 +176,7 @@ def touching (x : V3 α) (rho : α) : Tree α → List Int → List Int
 
 /-- `ref_search_gather_seg/_tri` with the element distance abstracted to `ed item`
     (`ed i = dist2seg …` resp. `dist2tri …` of element `i` to the query point `x`) -/
-def nearestWith (ed : Int → α) (x : V3 α) : Tree α → α → α
+def nearestWith (ed : Int → α) (x : V3 α) : STree α → α → α
   | .nil, d => d
   | .node e ball l r, d =>
     let dist := dist0 e.pos x
@@ -183,14 +184,14 @@ def nearestWith (ed : Int → α) (x : V3 α) : Tree α → α → α
     if Scalar.bge d1 (dist -. ball) then nearestWith ed x r (nearestWith ed x l d1) else d1
 
 /-- `ref_search_trim` -/
-def trim (x : V3 α) : Tree α → α → α
+def trim (x : V3 α) : STree α → α → α
   | .nil, t => t
   | .node e ball l r, t =>
     let d := dist0 e.pos x
     let t1 := if d +. e.rad <. t then d +. e.rad else t
     if Scalar.bgt t1 (d -. ball) then trim x r (trim x l t1) else t1
 
-end Tree
+end STree
 
 /-- `REF_DBL_MAX` (ref_defs.h) -/
 @[inline] def dblMax : α := Scalar.ofDec 1 200
@@ -199,7 +200,7 @@ end Tree
 structure Search (α : Type) where
   n : Nat
   empty : Nat
-  root : Tree α
+  root : STree α
 
 inductive Status where
   | ok | failure | invalid | increaseLimit
